@@ -29,6 +29,7 @@ structure PortCfg where
   cond : Bool := false
   rmw : Bool := false
   share : Bool := false
+  outXor : String := "-"
 
 structure Case where
   id : String := ""
@@ -124,6 +125,10 @@ def guardRejects (c : Case) : Bool :=
 def refinesW (e g : String) : Bool :=
   e.length == g.length && (List.zipWith (fun x y => x == 'x' || x == y) e.toList g.toList).all id
 
+def xorW (a k : String) : String :=
+  if k == "-" || k == "" then a else
+  String.ofList (List.zipWith (fun x y => if x == 'x' then 'x' else if x == y then '0' else '1') a.toList k.toList)
+
 def cmpPins (expect : List W) (got : List String) : Bool :=
   expect.length == got.length && (List.zipWith refinesW expect got).all id
 
@@ -140,12 +145,15 @@ partial def loop (h : IO.FS.Stream) (c : Case) (s : Stats) : IO Stats := do
     let s := { s with hist := bump (bump s.hist (if c.depth == 2 ^ c.aw then "depth:pow2" else "depth:nonpow2")) s!"mode:{c.mode}" }
     loop h c s
   | "port" :: _ :: kind :: rest =>
-    let p : PortCfg := { isWrite := kind == "W", cond := kvOf rest "cond" == "1", rmw := kvOf rest "rmw" != "-" && kind == "W", share := kvOf rest "share" != "-" }
+    let isW := kind == "W"
+    let p : PortCfg := { isWrite := isW, cond := kvOf rest "cond" == "1", rmw := kvOf rest "rmw" != "-" && isW, share := kvOf rest "share" != "-" }
+    let p := { p with outXor := if isW then "-" else kvOf rest "xor" }
     loop h { c with ports := c.ports.push p } s
   | "mem" :: ws =>
     let shape := String.ofList (c.ports.toList.map fun p => if p.isWrite then 'W' else 'R')
     let s := { s with hist := bump s.hist s!"ports:{shape}" }
     let s := if c.ports.toList.any (·.rmw) then { s with hist := bump s.hist "rmw-design" } else s
+    let s := if c.ports.toList.any (·.outXor != "-") then { s with hist := bump s.hist "logic-before-latency-regs" } else s
     let s := if c.ports.toList.any (·.share) then { s with hist := bump s.hist "shared-address" } else s
     let s := if c.ports.toList.any (fun p => p.isWrite && !p.cond) then { s with hist := bump s.hist "unconditional-write" } else s
     loop h { c with mem := ws, spec := ⟨ws⟩ } s
@@ -230,7 +238,8 @@ partial def loop (h : IO.FS.Stream) (c : Case) (s : Stats) : IO Stats := do
                         outOfRange := s.outOfRange + (ports.filter fun p => match p with
                     | .rd _ a => a.full cfg.aw && a.val ≥ cfg.depth | .wr _ _ a _ => a.full cfg.aw && a.val ≥ cfg.depth).length }
         if c.specOk && t ≥ c.lat then
-          let expect := c.reads[t - c.lat]!
+          let xors := (c.ports.toList.filter (!·.isWrite)).map (·.outXor)
+          let expect := List.zipWith xorW (c.reads[t - c.lat]!) xors
           s := { s with preCmp := s.preCmp + expect.length, ops := s.ops + expect.length }
           if !cmpPins expect prePins && !c.failed then
             IO.println s!"PROPFAIL case={c.id} cycle={t} what=pre L={c.lat} type={c.type} arrmem={expect} pins={prePins}"
